@@ -70,6 +70,8 @@ def form_programs(tier):
     # (blocked) level is rectangular
     P("stokesB3D", 3, vgen.mul(["diverg", U, False], Vv), 3, 1)
     P("stokesBT3D", 3, vgen.mul(U, ["diverg", Vv, False]), 1, 3)
+    # symmetric 3D vector form: the mirror-block logic of the symmetric kernel has three nested levels only here
+    P("divdiv3D", 3, vgen.mul(["diverg", U, False], ["diverg", Vv, False]), 3, 3, sym=True)
     P("functional2D", 2, vgen.mul(f, Vv), arity=1)
     P("vfunctional2D", 2, ["inner", ["field", "w"], Vv], None, 2, arity=1)
     if tier == "thorough":
@@ -151,7 +153,13 @@ def lattice_problems(case):
     probs = []
     n_cmp = 0
     try:
-        asm, prog, sym, geo, args = instance(name, tier)
+        if case.get("axes"):
+            # the same form on a "twin" space (equal sizes, different sparsity patterns per direction)
+            with vspaces.use_axes(form_programs(tier)[name][0]["dim"], case["axes"]):
+                asm, prog, sym, geo, args = instance(name, tier)
+            name = "%s on axes %s" % (name, "x".join(case["axes"]))
+        else:
+            asm, prog, sym, geo, args = instance(name, tier)
         vec = any(nc is not None for nc, _ in prog["bfuns"].values())
         if prog["arity"] == 1:
             base = np.asarray(assemble.assemble_entries(asm, layout="blocked"))
@@ -508,6 +516,13 @@ def run(ctx):
     compiled(names, tier)           # one module, cached on disk
     ctx.log("forms compiled/cached: %d" % len(names))
     cases = [{"part": "lattice", "form": n, "tier": tier} for n in names]
+    for n in names:
+        prg, sym = form_programs(tier)[n]
+        if sym and prg["arity"] == 2:
+            if prg["dim"] == 2:
+                cases.append({"part": "lattice", "form": n, "tier": tier, "axes": ["T1", "T2"]})
+            elif prg["dim"] == 3 and prg["bfuns"]["u"][0]:
+                cases.append({"part": "lattice", "form": n, "tier": tier, "axes": ["T3", "T1", "T2"]})
     sched_forms = ["mass2D", "convection2D", "vlaplace2D", "mixed23_2D"] + (["mass3D", "stokesB2D", "laplace1D"] if tier == "thorough" else [])
     cases += [{"part": "sched", "form": n, "tier": tier} for n in sched_forms]
     evs = update_events()
